@@ -12,6 +12,7 @@ import (
 	"path"
 	"sort"
 	"syscall"
+	"time"
 
 	nd "github.com/glebziz/fs_db/internal/verifnd"
 )
@@ -26,6 +27,12 @@ type handle struct {
 	n      *fnode
 	pos    int
 	closed bool
+	// access mode of the descriptor: a read on a write-only (a write on a read-only) descriptor
+	// fails with EBADF; appnd: O_APPEND, every write goes to the end
+	noRead, noWrite, appnd bool
+	// dirPos: how many entries of a directory the batched readers (Readdirnames, ReadDir, Readdir
+	// with n > 0) have handed out so far; symbolic when the directory holds symbolic extra entries
+	dirPos uint64
 }
 
 // FSState is the file-system model: a flat table of cleaned paths.
@@ -37,6 +44,8 @@ type FSState struct {
 	// OnWrite, if set, decides how many of the n bytes of a Write to path are accepted and with
 	// which error (fault injection: partial writes, no-space).
 	OnWrite func(p string, n int) (int, error)
+	// OnRead, if set, may fail a Read of path at file offset pos (fault injection: media error).
+	OnRead func(p string, pos int) error
 	// OnCreate, if set, may fail file creation.
 	OnCreate func(p string) error
 	// Creates / Removes record every created and removed regular file (for C14/C17 oracles).
@@ -161,7 +170,34 @@ func OsMkdirAll(p string, perm os.FileMode) error {
 }
 
 func OsCreate(name string) (*os.File, error) {
+	return OsOpenFile(name, os.O_RDWR|os.O_CREATE|os.O_TRUNC, 0o666)
+}
+
+func OsOpen(name string) (*os.File, error) { return OsOpenFile(name, os.O_RDONLY, 0) }
+
+// OsOpenFile: open(2) on the model: access mode, O_CREATE, O_EXCL, O_TRUNC, O_APPEND.
+func OsOpenFile(name string, flag int, perm os.FileMode) (*os.File, error) {
 	p := path.Clean(name)
+	acc := flag & (os.O_RDONLY | os.O_WRONLY | os.O_RDWR)
+	h := &handle{p: p, noRead: acc == os.O_WRONLY, noWrite: acc == os.O_RDONLY, appnd: flag&os.O_APPEND != 0}
+	if flag&os.O_CREATE == 0 {
+		nd.Yield()
+		n := FS.lookup(p)
+		if n == nil {
+			return nil, pathErr("open", name, syscall.ENOENT)
+		}
+		if n.isDir && !h.noWrite {
+			return nil, pathErr("open", name, syscall.EISDIR)
+		}
+		if flag&os.O_TRUNC != 0 && !n.isDir && !h.noWrite {
+			nd.Mutation("fs.truncate " + p)
+			n.data = nil
+		}
+		h.n = n
+		f := new(os.File)
+		FS.handles[f] = h
+		return f, nil
+	}
 	if FS.OnCreate != nil {
 		if err := FS.OnCreate(p); err != nil {
 			return nil, err
@@ -180,26 +216,20 @@ func OsCreate(name string) (*os.File, error) {
 		if n.isDir {
 			return nil, pathErr("open", name, syscall.EISDIR)
 		}
-		n.data = nil
+		if flag&os.O_EXCL != 0 {
+			return nil, pathErr("open", name, syscall.EEXIST)
+		}
+		if flag&os.O_TRUNC != 0 {
+			n.data = nil
+		}
 	} else {
 		n = &fnode{}
 		FS.add(p, n)
 	}
 	FS.Creates = append(FS.Creates, p)
+	h.n = n
 	f := new(os.File)
-	FS.handles[f] = &handle{p: p, n: n}
-	return f, nil
-}
-
-func OsOpen(name string) (*os.File, error) {
-	p := path.Clean(name)
-	nd.Yield()
-	n := FS.lookup(p)
-	if n == nil {
-		return nil, pathErr("open", name, syscall.ENOENT)
-	}
-	f := new(os.File)
-	FS.handles[f] = &handle{p: p, n: n}
+	FS.handles[f] = h
 	return f, nil
 }
 
@@ -267,8 +297,19 @@ func FileRead(f *os.File, b []byte) (int, error) {
 	if h == nil || h.closed {
 		return 0, os.ErrClosed
 	}
+	if h.noRead {
+		return 0, pathErr("read", h.p, syscall.EBADF)
+	}
+	if h.n.isDir {
+		return 0, pathErr("read", h.p, syscall.EISDIR)
+	}
 	if len(b) == 0 {
 		return 0, nil
+	}
+	if FS.OnRead != nil {
+		if err := FS.OnRead(h.p, h.pos); err != nil {
+			return 0, err
+		}
 	}
 	if h.pos >= len(h.n.data) {
 		return 0, io.EOF
@@ -282,6 +323,12 @@ func FileWrite(f *os.File, b []byte) (int, error) {
 	h := FS.handles[f]
 	if h == nil || h.closed {
 		return 0, os.ErrClosed
+	}
+	if h.noWrite {
+		return 0, pathErr("write", h.p, syscall.EBADF)
+	}
+	if h.appnd {
+		h.pos = len(h.n.data)
 	}
 	n := len(b)
 	var err error
@@ -356,5 +403,276 @@ type onlyWriter struct{ f *os.File }
 func (w onlyWriter) Write(b []byte) (int, error) { return FileWrite(w.f, b) }
 
 // (*os.File).WriteTo / ReadFrom fall back to the generic copy when no kernel fast path applies.
-func FileWriteTo(f *os.File, w io.Writer) (int64, error) { return io.Copy(w, onlyReader{f}) }
+func FileWriteTo(f *os.File, w io.Writer) (int64, error)  { return io.Copy(w, onlyReader{f}) }
 func FileReadFrom(f *os.File, r io.Reader) (int64, error) { return io.Copy(onlyWriter{f}, r) }
+
+// ---------- the rest of the os surface a change to the repository may plausibly reach for ----------
+
+type fileInfo struct {
+	name string
+	size int64
+	dir  bool
+}
+
+func (i fileInfo) Name() string { return i.name }
+func (i fileInfo) Size() int64  { return i.size }
+func (i fileInfo) Mode() fs.FileMode {
+	if i.dir {
+		return fs.ModeDir | 0o755
+	}
+	return 0o644
+}
+func (i fileInfo) ModTime() time.Time { return time.Time{} }
+func (i fileInfo) IsDir() bool        { return i.dir }
+func (i fileInfo) Sys() any           { return nil }
+
+func OsStat(name string) (os.FileInfo, error) {
+	p := path.Clean(name)
+	nd.Yield()
+	n := FS.lookup(p)
+	if n == nil {
+		return nil, pathErr("stat", name, syscall.ENOENT)
+	}
+	return fileInfo{name: path.Base(p), size: int64(len(n.data)), dir: n.isDir}, nil
+}
+
+func FileStat(f *os.File) (os.FileInfo, error) {
+	h := FS.handles[f]
+	if h == nil || h.closed {
+		return nil, os.ErrClosed
+	}
+	return fileInfo{name: path.Base(h.p), size: int64(len(h.n.data)), dir: h.n.isDir}, nil
+}
+
+func FileName(f *os.File) string {
+	if h := FS.handles[f]; h != nil {
+		return h.p
+	}
+	return ""
+}
+
+func FileSync(f *os.File) error {
+	h := FS.handles[f]
+	if h == nil || h.closed {
+		return os.ErrClosed
+	}
+	return nil
+}
+
+func FileWriteString(f *os.File, s string) (int, error) { return FileWrite(f, []byte(s)) }
+
+func FileTruncate(f *os.File, size int64) error {
+	h := FS.handles[f]
+	if h == nil || h.closed {
+		return os.ErrClosed
+	}
+	if h.noWrite {
+		return pathErr("truncate", h.p, syscall.EINVAL)
+	}
+	nd.Mutation("fs.truncate " + h.p)
+	for int64(len(h.n.data)) < size {
+		h.n.data = append(h.n.data, 0)
+	}
+	h.n.data = h.n.data[:size:size]
+	return nil
+}
+
+func FileReadAt(f *os.File, b []byte, off int64) (int, error) {
+	h := FS.handles[f]
+	if h == nil || h.closed {
+		return 0, os.ErrClosed
+	}
+	if h.noRead {
+		return 0, pathErr("read", h.p, syscall.EBADF)
+	}
+	if off >= int64(len(h.n.data)) {
+		return 0, io.EOF
+	}
+	n := copy(b, h.n.data[off:])
+	if n < len(b) {
+		return n, io.EOF
+	}
+	return n, nil
+}
+
+func OsReadFile(name string) ([]byte, error) {
+	f, err := OsOpen(name)
+	if err != nil {
+		return nil, err
+	}
+	h := FS.handles[f]
+	if h.n.isDir {
+		return nil, pathErr("read", name, syscall.EISDIR)
+	}
+	out := append([]byte{}, h.n.data...)
+	h.closed = true
+	return out, nil
+}
+
+func OsWriteFile(name string, data []byte, perm os.FileMode) error {
+	f, err := OsOpenFile(name, os.O_WRONLY|os.O_CREATE|os.O_TRUNC, perm)
+	if err != nil {
+		return err
+	}
+	_, err = FileWrite(f, data)
+	if cerr := FileClose(f); err == nil {
+		err = cerr
+	}
+	return err
+}
+
+func OsMkdir(name string, perm os.FileMode) error {
+	p := path.Clean(name)
+	if FS.lookup(p) != nil {
+		return pathErr("mkdir", name, syscall.EEXIST)
+	}
+	parent := FS.lookup(path.Dir(p))
+	if parent == nil {
+		return pathErr("mkdir", name, syscall.ENOENT)
+	}
+	if !parent.isDir {
+		return pathErr("mkdir", name, syscall.ENOTDIR)
+	}
+	nd.Mutation("fs.mkdir " + p)
+	FS.add(p, &fnode{isDir: true})
+	return nil
+}
+
+func OsRemoveAll(name string) error {
+	p := path.Clean(name)
+	if FS.nodes[p] == nil {
+		nd.Yield()
+		return nil
+	}
+	nd.Mutation("fs.removeall " + p)
+	var doomed []string
+	for _, x := range FS.names {
+		if x == p || (len(x) > len(p)+1 && x[:len(p)] == p && x[len(p)] == '/') {
+			doomed = append(doomed, x)
+		}
+	}
+	for _, x := range doomed {
+		if n := FS.nodes[x]; n != nil && !n.isDir {
+			FS.Removes = append(FS.Removes, x)
+		}
+		FS.del(x)
+	}
+	return nil
+}
+
+func OsRename(oldpath, newpath string) error {
+	o, n := path.Clean(oldpath), path.Clean(newpath)
+	src := FS.nodes[o]
+	if src == nil {
+		nd.Yield()
+		return &os.LinkError{Op: "rename", Old: oldpath, New: newpath, Err: syscall.ENOENT}
+	}
+	if src.isDir {
+		return &os.LinkError{Op: "rename", Old: oldpath, New: newpath, Err: syscall.ENOSYS} // directories: not modelled
+	}
+	parent := FS.lookup(path.Dir(n))
+	if parent == nil || !parent.isDir {
+		return &os.LinkError{Op: "rename", Old: oldpath, New: newpath, Err: syscall.ENOENT}
+	}
+	if dst := FS.nodes[n]; dst != nil && dst.isDir {
+		return &os.LinkError{Op: "rename", Old: oldpath, New: newpath, Err: syscall.EISDIR}
+	}
+	nd.Mutation("fs.rename " + o)
+	if FS.nodes[n] != nil {
+		FS.del(n)
+		FS.Removes = append(FS.Removes, n)
+	}
+	FS.del(o)
+	FS.Removes = append(FS.Removes, o)
+	FS.add(n, src)
+	FS.Creates = append(FS.Creates, n)
+	for _, h := range FS.handles {
+		if h.n == src {
+			h.p = n
+		}
+	}
+	return nil
+}
+
+// ---------- reading a directory through a handle (batched) ----------
+
+// dirBatch: the entries the next batched read of a directory handle returns: all that remain
+// for n <= 0, otherwise min(n, remaining); done reports "nothing was left" (io.EOF for n > 0).
+func dirBatch(f *os.File, n int) (ents []dirEnt, count uint64, done bool, err error) {
+	h := FS.handles[f]
+	if h == nil || h.closed {
+		return nil, 0, false, os.ErrClosed
+	}
+	if !h.n.isDir {
+		return nil, 0, false, pathErr("readdirent", h.p, syscall.ENOTDIR)
+	}
+	nd.Yield()
+	kids := FS.Children(h.p)
+	for _, k := range kids {
+		c := FS.nodes[path.Join(h.p, k)]
+		ents = append(ents, dirEnt{name: k, dir: c != nil && c.isDir})
+	}
+	total := uint64(len(kids))
+	if ExtraEntries != nil {
+		total += ExtraEntries(h.p)
+	}
+	if h.dirPos > total {
+		h.dirPos = total
+	}
+	remaining := total - h.dirPos
+	if n <= 0 {
+		h.dirPos = total
+		return ents, remaining, false, nil
+	}
+	if remaining == 0 {
+		return nil, 0, true, nil
+	}
+	count = nd.IteU64(remaining > uint64(n), uint64(n), remaining)
+	h.dirPos += count
+	return ents, count, false, nil
+}
+
+func FileReaddirnames(f *os.File, n int) ([]string, error) {
+	ents, count, done, err := dirBatch(f, n)
+	if err != nil {
+		return nil, err
+	}
+	if done {
+		return []string{}, io.EOF
+	}
+	names := make([]string, 0, len(ents))
+	for _, e := range ents {
+		names = append(names, e.name)
+	}
+	return nd.SymLen(names, count), nil
+}
+
+func FileReadDir(f *os.File, n int) ([]os.DirEntry, error) {
+	ents, count, done, err := dirBatch(f, n)
+	if err != nil {
+		return nil, err
+	}
+	if done {
+		return []os.DirEntry{}, io.EOF
+	}
+	out := make([]os.DirEntry, 0, len(ents))
+	for _, e := range ents {
+		out = append(out, e)
+	}
+	return nd.SymLen(out, count), nil
+}
+
+func FileReaddir(f *os.File, n int) ([]os.FileInfo, error) {
+	ents, count, done, err := dirBatch(f, n)
+	if err != nil {
+		return nil, err
+	}
+	if done {
+		return []os.FileInfo{}, io.EOF
+	}
+	out := make([]os.FileInfo, 0, len(ents))
+	for _, e := range ents {
+		out = append(out, fileInfo{name: e.name, dir: e.dir})
+	}
+	return nd.SymLen(out, count), nil
+}
